@@ -353,6 +353,12 @@ class DnsNameUncompressed(ParsableBase, Serializable):
         validator=attr.validators.deep_iterable(member_validator=attr.validators.instance_of(six.string_types))
     )
 
+    @labels.validator
+    def _validator_labels(self, _, value):
+        # an empty label is the root and ends the name on the wire, so it cannot stand among the labels
+        if any(not label for label in value):
+            raise InvalidValue(value, type(self), 'labels')
+
     def __str__(self):
         return six.u('.').join(self.labels)
 
@@ -364,6 +370,9 @@ class DnsNameUncompressed(ParsableBase, Serializable):
         if isinstance(value, cls):
             return value
         if isinstance(value, six.string_types):
+            if value.endswith('.'):
+                # the trailing dot of a fully qualified name stands for the root label, which compose writes anyway
+                value = value[:-1]
             if not value:
                 return cls([])
 
